@@ -936,6 +936,19 @@ func proxyGen(prop string) func(c *Ctx) {
 				one := `{"jsonrpc":"2.0","id":8,"method":"eth_sendTransaction","params":[` + p0 + `]}`
 				corner = append(corner, one, `[`+one+`,`+one+`]`)
 			}
+			// strings of every escape class (control characters, DEL, quotes, backslashes, invalid UTF-8 replaced by the
+			// decoder, astral and non-printable code points) as method name, as string id and inside params — with the
+			// id present, absent and null, single and as a batch member: whatever the proxy echoes or embeds of the
+			// request must still come back as JSON
+			oddStrings := []string{`\u0000`, `\u0001`, `\u0007`, `\u000b`, `\u001f`, `\u007f`, `\\`, `\"`, `\/`, `\b\f\n\r\t`, `ÿ`, `  `, `🙂`,
+				`󠀁`, `\ud800`, `a\u0000b`, `%s%d%q`, `<script>&amp;`, `￾￿`, `\u0085 `}
+			for _, o := range oddStrings {
+				for _, idPart := range []string{`"id":1,`, ``, `"id":null,`, `"id":"` + o + `",`} {
+					one := `{"jsonrpc":"2.0",` + idPart + `"method":"` + o + `","params":["` + o + `"]}`
+					two := `{"jsonrpc":"2.0",` + idPart + `"method":"eth_call","params":[{"data":"` + o + `"}]}`
+					corner = append(corner, one, `[`+one+`,{"jsonrpc":"2.0","id":2,"method":"eth_accounts"}]`, two)
+				}
+			}
 			for _, s := range corner {
 				addProxyCase(c, rg, []byte(s), proxyScript(r), nil, "corner")
 			}
